@@ -853,7 +853,8 @@ DefResizeNearest(x, outs, scs, cm, nm) ==
   /\ cm \in CoordModes /\ nm \in NearestModes
   /\ Len(outs) = Rank(x) /\ Len(scs) = Rank(x)
   /\ \A i \in 1..Rank(x) :
-       /\ x.shape[i] >= 1 /\ outs[i] >= 1 /\ IsPow2Ratio(scs[i].n, scs[i].d)
+       /\ x.shape[i] >= 1 /\ outs[i] >= 1 /\ scs[i].n >= 1 /\ scs[i].d >= 1
+       /\ cm # "align_corners" => IsPow2Ratio(scs[i].n, scs[i].d)
        /\ cm = "align_corners" => (outs[i] = 1 \/ x.shape[i] = 1 \/ IsPow2Ratio(x.shape[i] - 1, outs[i] - 1))
 OnnxResizeNearest(x, outs, scs, cm, nm) ==
   LET F(idx) == At(x, [i \in 1..Rank(x) |->
